@@ -72,7 +72,7 @@ class FlagTrue(int):
 
 HOSTILE = [
     ('amp', '&'), ('lt', '<'), ('gt', '>'), ('dq', '"'), ('sq', "'"), ('all', 'a<b>&"\'c'), ('cdata-end', 'x]]>y'),
-    ('comment-end', 'x-->y'), ('entity-amp', '&amp;'), ('entity-num', '&#38;&#x3c;'), ('entity-bogus', '&bogus; &lt'),
+    ('comment-end', 'x-->y'), ('pi-end', 'x?>y<z a="1">'), ('entity-amp', '&amp;'), ('entity-num', '&#38;&#x3c;'), ('entity-bogus', '&bogus; &lt'),
     ('tag', '<script>alert(1)</script>'), ('attr-break', '" onmouseover="x'), ('attr-break-sq', "' onmouseover='x"),
     ('nul', 'a\x00b<'), ('nonascii', 'é<日>'), ('newline', 'a\n<b'), ('bytes', b'by<&>"\''), ('strsub', StrSub('s<u"b\'')),
     ('int', 7), ('float', 2.5), ('bool', True), ('obj', exprs.Obj('O<&>"\'')), ('message', Message('m<&>"\'')),
@@ -119,6 +119,9 @@ SITES = {
     'dict-attr-unquoted-static': ('<p a=s tal:attributes="{\'a\': v}">t</p>', ('attr-whole', 'a', '"')),
     'dict-attr': ('<p tal:attributes="{\'a\': v}">t</p>', ('attr-whole', 'a', '"')),
     'comment': ('<!--' + A + '${v}' + B + '-->', 'comment'),
+    # a processing instruction (other than <?python): its data is text like any other
+    'processing-instruction': ('<?foo ' + A + '${v}' + B + ' ?>', 'text'),
+    'processing-instruction-attr': ('<?xml-stylesheet href="' + A + '${v}' + B + '" ?>', 'text'),
     'content': ('<p tal:content="v">x</p>', 'text-whole'),
     'content-text-kw': ('<p tal:content="text v">x</p>', 'text-whole'),
     'replace': ('<u>' + A + '<p tal:replace="v">x</p>' + B + '</u>', 'text'),
